@@ -419,6 +419,11 @@ func (x *palExec) step(op palOp) {
 		rleft := -1
 		if p, _ := catch(func() {
 			t = x.target(op.T, op.Pal)
+			if op.Tail >= 3 && len(wbytes) > 2 {
+				// the receiving container first meets a read that breaks off (half of the wire form; its error is the
+				// caller's business): what a FAILED read left behind must not show in what the complete read gives
+				catch(func() { t.ReadFrom(bytes.NewReader(wbytes[:len(wbytes)/2])) })
+			}
 			br := bytes.NewReader(in)
 			if op.Tail%2 == 1 {
 				rn, rerr = t.ReadFrom(&plainReader{r: br})
